@@ -404,6 +404,13 @@ def run(tier, seed):
             for plabel, pfac in post_selections(c.input_modes):
                 jobs.append(("qs", rc, pc, plabel))
         jobs.append(("seeds", rc))
+    weak = [{"name": "weak3", "n": 3, "ops": [("bs", 0, 1, 0.999, "Rx", 0), ("bs", 1, 2, 0.9992, "H", 0), ("ps", 0, env.PH[0], 0)],
+             "input": (1, 1, 0)},
+            {"name": "weak3_herald", "n": 3, "ops": [("bs", 0, 1, 0.9985, "Rx", 0), ("bs", 2, 1, 0.9991, "Rx", 0), ("her", 1, 2, 2)],
+             "input": (1, 1)}]
+    for rc in weak:
+        for det in (dets[0], dets[6], dets[3]):
+            jobs.append(("truncated", rc, det))
     jobs.append(("dethist", by["u3_herald1"], 3))
     jobs.append(("dethist", by["u2_bunch"], 3 if tier == "quick" else 4))
     # two clock cycles: path count is the square of the N=1 count, so the richest detector only on the
@@ -428,6 +435,20 @@ def run(tier, seed):
                 check_seeds(rc, env, acc)
             elif j[0] == "dethist":
                 check_detector_history(rc, env, acc, j[2])
+            elif j[0] == "truncated":
+                # a coarser (documented, global) truncation setting makes the distribution sum to less than one, which
+                # sends sample_N_inputs through its renormalisation path; the law must be that of the renormalised one
+                old = lw.settings.sampler_probability_threshold
+                lw.settings.sampler_probability_threshold = 2e-3
+                try:
+                    c0, _ = build(rc, env)
+                    tot0 = sum(emu.Sampler(c0, lw.State(list(rc["input"]))).probability_distribution.values())
+                    if abs(tot0 - 1) > 1e-6:
+                        acc.tick("truncated_unnormalised_distributions")
+                    check_config(rc, j[2], "none", pmap_["none"], 0, env, acc, tier)
+                    check_config(rc, j[2], "rule(0:(1,2))", pmap_["rule(0:(1,2))"], 1, env, acc, tier)
+                finally:
+                    lw.settings.sampler_probability_threshold = old
             else:
                 check_n2_independence(rc, j[2], env, acc)
         if js and js[0][0] == "cfg":
